@@ -361,6 +361,10 @@ fn mallory(cx: &mut Cx, honest: &Presentation, l_honest: usize, verifier: NodeId
             ("id-id-id", id, id, id, None),
             ("id-id-rand", id, id, rp, None),
             ("Bv-Bv-Bv", bv, bv, bv, Some(Scalar::ONE)),
+            // Abar = alpha*D, Bbar = beta*D, D = k*Bv with responses solving BOTH T1 and T2: a complete
+            // transcript made without any signature; the challenge comparison passes and only the
+            // pairing equation refuses it
+            ("aD-bD-kBv", bv * k * k, bv * k * (k + Scalar::ONE), bv * k, Some(k)),
         ];
         for (name, abar, bbar, d, cancel) in fams {
             let smallorder = name.starts_with("smallorder");
@@ -375,7 +379,9 @@ fn mallory(cx: &mut Cx, honest: &Presentation, l_honest: usize, verifier: NodeId
             let mut t2_free = G1Projective::identity();
             for (kk, j) in und.iter().enumerate() { t2_free += gens[1 + j] * m_cap[kk]; }
             // small-order family: Bbar*c + Abar*e^ = S*(c + e^) vanishes for e^ = -c
-            let t1_free = if smallorder { d * r1_cap } else { abar * e_cap + d * r1_cap }; // + Bbar*c, zero when Bbar is the identity
+            let multiples = name == "aD-bD-kBv"; // alpha = k, beta = k + 1
+            let rho = rnd(&mut x);
+            let t1_free = if multiples { d * rho } else if smallorder { d * r1_cap } else { abar * e_cap + d * r1_cap }; // + Bbar*c, zero when Bbar is the identity
             // fixed point: c = H(.., T1(c), T2(c), ..) has no dependence on c in the cancelling families
             let c = match rm::challenge(suite, &api, &disclosed, &abar, &bbar, &d, &t1_free, &t2_free, &domain, &ph) { Ok(c) => c, Err(_) => continue };
             let r3_cap = match cancel { Some(kv) => -(c * kv.invert().unwrap()), None => -c };
@@ -385,11 +391,15 @@ fn mallory(cx: &mut Cx, honest: &Presentation, l_honest: usize, verifier: NodeId
                 while (scalar_mod3(&e) + scalar_mod3(&c)) % 3 != 0 { e += Scalar::ONE; }
                 e
             } else { e_cap };
+            // T1 = Bbar*c + Abar*e^ + D*r1^ = D*(beta*c + alpha*e^ + r1^): r1^ = rho - alpha*e^ - beta*c
+            let (e_cap, r1_cap) = if multiples { let e = rnd(&mut x); (e, rho - k * e - (k + Scalar::ONE) * c) } else { (e_cap, r1_cap) };
             let p = rm::Proof { abar, bbar, d, e_cap, r1_cap, r3_cap, m_cap, c };
             let bytes = p.to_bytes();
             let base = Presentation { suite, pk: honest.pk.clone(), proof: bytes.clone(), header: honest.header.clone(), ph: honest.ph.clone(), dmsgs: Some(dmsgs.clone()), didx: Some(didx.clone()), json: None, blind_l: None };
             cx.cell(format!("mallory|{name}|claim{ci}"));
             deliver(cx, verifier, base.clone(), format!("forged:{name}"), ideal.clone());
+            // a refused frame presented again to the same verifier thread is refused again
+            if cx.ch.chance("present_forged_frame_again", 1, 2) { deliver(cx, verifier, base.clone(), format!("forged:{name}:again"), ideal.clone()); }
             let mut j = base.clone();
             j.json = Some(proof_json(&bytes));
             deliver(cx, verifier, j, format!("forged-json:{name}"), ideal.clone());
